@@ -5,6 +5,7 @@ use serde_json::Value;
 pub mod codec;
 pub mod huffman;
 pub mod index;
+pub mod laws;
 pub mod stack;
 
 pub fn replay(property: &str, engine: &str, case: &Value) -> Result<(), String> {
@@ -12,6 +13,7 @@ pub fn replay(property: &str, engine: &str, case: &Value) -> Result<(), String> 
         "stack" => stack::replay(property, case),
         "huffman" => huffman::replay(case),
         "codec" => codec::replay(case),
+        "laws" => laws::replay(case),
         "index" => index::replay(case),
         _ => Err(format!("unknown engine {engine:?} in replay file")),
     }
